@@ -85,3 +85,29 @@ Theorem C06_no_progress_bug : forall client validated ipn period maxPeriod rnd0 
   snd (step (run (init client validated ipn period maxPeriod rnd0) ops) (OTimeout now rnd, orc)) = 0.
 Proof. exact no_progress_bug. Qed.
 Print Assumptions C06_no_progress_bug.
+
+(** (d) In every history in which packets are sent at positive times: whenever Initial or Handshake
+    packets are outstanding, or (after handshake confirmation) application-data packets, and sending is not
+    amplification-limited, the loss-detection alarm is set. *)
+Theorem C06_timer_armed : forall client validated ipn period maxPeriod rnd0 ops,
+  0 <= ipn -> send_times_positive ops ->
+  let st := run (init client validated ipn period maxPeriod rnd0) ops in
+  (hasOutstandingCrypto st || (sConf st && h_hasOut (spH (sApp st)))) = true ->
+  isAmplificationLimited st = false ->
+  aTime (sAlarm st) <> 0.
+Proof. exact timer_armed. Qed.
+Print Assumptions C06_timer_armed.
+
+Example C06_timer_armed_nonvacuous :
+  send_times_positive w_ops /\
+  (let st := run w_init w_ops in
+   (hasOutstandingCrypto st || (sConf st && h_hasOut (spH (sApp st)))) = true /\ isAmplificationLimited st = false /\
+   aTime (sAlarm st) = 507400000000).
+Proof. exact timer_armed_nonvacuous. Qed.
+Print Assumptions C06_timer_armed_nonvacuous.
+
+Example C06_exactly_once_nonvacuous :
+  let '(st, D, H) := grun w_init [] [] (w_ops ++ [(w_ack, (1125000, 3000000, 28000000))]) in
+  H = [1; 2] /\ D = [] /\ tracked_ids st = [] /\ sCbs st = [(1, false); (2, true)] /\ sBif st = 0.
+Proof. exact exactly_once_nonvacuous. Qed.
+Print Assumptions C06_exactly_once_nonvacuous.
